@@ -39,7 +39,10 @@ TLS_FAULTS = ['crt_missing', 'crt_unreadable', 'key_missing',
               'key_unreadable', 'ca_missing']
 TEMPLATES = ['http://h0.test/v1/%(name)s/check', 'http://h1.test/%(id)s',
              'http://plain.test/x', 'https://s0.test/%(id)s/authz',
-             'https://s1.test/p/%(name)s']
+             'https://s1.test/p/%(name)s',
+             # the URL is a %-template: a literal percent is written %%
+             'http://plain.test/authz?realm=dev%%2Fops',
+             'https://s2.test/q?x=50%%25&n=%(name)s']
 PNAMES = ['svc:get', 'p', 'compute:servers:create', 'rule with space']
 CT_FORM = 'application/x-www-form-urlencoded'
 CT_JSON = 'application/json'
@@ -156,7 +159,26 @@ def gen_decision(rng):
             # requests_mock or a custom mounted adapter would not), so that
             # the library's own pre-checks are the only guard
             'debug_logging': rng.random() < 0.3,
-            'lenient_transport': rng.random() < 0.4}
+            'lenient_transport': rng.random() < 0.4,
+            'ctx_steps': gen_ctx_steps(rng, roles_u)
+            if rng.random() < 0.25 else None}
+
+
+def gen_ctx_steps(rng, roles_u):
+    """Credentials handed over as ONE oslo.context RequestContext object
+    that the service re-scopes between several enforce() calls on the same
+    enforcer: each step is the set of attributes changed before a call."""
+    steps = [{'roles': rng.sample(roles_u, rng.randint(0, 3)),
+              'project_id': 'p-1'}]
+    pool = [{'domain_id': 'd2', 'project_id': None},
+            {'system_scope': 'all', 'project_id': None},
+            {'domain_id': 'd1'}, {'is_admin_project': False},
+            {'roles': rng.sample(roles_u, rng.randint(0, 3))},
+            {'project_id': 'p-2'}, {'user_id': 'u2'},
+            {'service_user_id': 'svc-1'}, {'project_domain_id': 'pd-9'}]
+    for _ in range(rng.randint(1, 3)):
+        steps.append(dict(rng.choice(pool)))
+    return steps
 
 
 def variants(base, rng):
@@ -342,8 +364,6 @@ def run_decision(d, dg=None, cnt=None):
                     for k, v in target.items()}
         plain_target = {k: ({} if k in opaque else v)
                         for k, v in snapshot.items()}
-        creds = copy.deepcopy(d['creds'])
-        creds_snapshot = copy.deepcopy(creds)
         val = {}
         expected_urls = {}
         for tmpl, beh in d['peers'].items():
@@ -355,102 +375,129 @@ def run_decision(d, dg=None, cnt=None):
             expected_urls[norm] = tmpl
             val[tmpl] = leaf_value(beh, tmpl.startswith('https'), tls,
                                    d['timeout'])
-        try:
-            got = T if e.enforce(d['pname'], target, creds) else F
-        except simnet.SimStall:
-            got = 'HANG'
-        except Exception as ex:      # noqa - outcome recorded
-            got = 'EXC:' + type(ex).__name__
-        for k, n in peer.faults_fired.items():
-            cnt.hit('fault:' + k, n)
-        cnt.hit('requests', len(peer.requests))
-        simtime = peer.clock
-        if dg is not None:
-            dg.add('decision', d['variant'], got, d.get('debug_logging'),
-                   d.get('lenient_transport'),
-                   [(r['url'], r['timeout'], str(r['verify']), str(r['cert']),
-                     r['body'] if isinstance(r['body'], str)
-                     else repr(r['body'])) for r in peer.requests])
-
-        def viol(sig, **detail):
-            detail.update(sig=sig, prop='C16', got=got,
-                          variant=d['variant'])
-            return detail
-
-        reach = leaves(rules[d['pname']], rules)
-        vals = {u: val[u] for u in reach}
-        if any(v is None for v in vals.values()):
-            cnt.hit('unconstrained_skipped')
-            return None, simtime
-        any_u = U in vals.values()
-        want = kleene(rules[d['pname']], val, rules, set(creds['roles']))
-        cnt.hit('kleene_' + want)
-        if got == 'HANG':
-            return viol('hang-no-timeout', want=want), simtime
-        raised = got.startswith('EXC')
-        if not any_u:
-            if raised:
-                return viol('raised-without-fault:' + got[4:],
-                            want=want), simtime
-            if got != want:
-                return viol('allowed-without-True' if got == T
-                            else 'denied-despite-True', want=want), simtime
-        else:
-            if want == U and not raised:
-                return viol('fault-swallowed:' +
-                            ('allow' if got == T else 'deny'),
-                            want='raise'), simtime
-            if not raised and got != want:
-                return viol('allowed-without-True' if got == T
-                            else 'denied-despite-True', want=want), simtime
-            if raised:
-                cnt.hit('raised_on_fault')
-        # ---- what the peer received
-        for rq in peer.requests:
-            if rq['url'] not in expected_urls:
-                return viol('request-url', url=rq['url']), simtime
-            if rq['method'] != 'POST':
-                return viol('request-method', method=rq['method']), simtime
-            ct = rq['headers'].get('Content-Type', '')
-            body = rq['body']
-            if isinstance(body, bytes):
-                body = body.decode('utf-8')
+        def one_call(creds, creds_snapshot, roles_now, step_no):
             try:
-                if d['content_type'] == CT_JSON:
-                    if not ct.startswith(CT_JSON):
-                        return viol('request-encoding', content_type=ct), \
-                            simtime
-                    pl = json.loads(body)
-                    rule, tg, cr = pl['rule'], pl['target'], \
-                        pl['credentials']
-                else:
-                    if not ct.startswith(CT_FORM):
-                        return viol('request-encoding', content_type=ct), \
-                            simtime
-                    q = urllib.parse.parse_qs(body, strict_parsing=True)
-                    rule = json.loads(q['rule'][0])
-                    tg = json.loads(q['target'][0])
-                    cr = json.loads(q['credentials'][0])
-            except Exception as ex:      # noqa
-                return viol('request-encoding',
-                            error=type(ex).__name__), simtime
-            if rule != d['pname']:
-                return viol('payload-rule', sent=rule), simtime
-            if tg != json.loads(json.dumps(plain_target)):
-                return viol('payload-target', sent=tg), simtime
-            if cr != json.loads(json.dumps(creds_snapshot)):
-                return viol('payload-credentials', sent=cr), simtime
-            cnt.hit('payloads_checked')
-        # ---- caller's target untouched
-        if set(target) != set(snapshot):
-            return viol('target-mutated', keys=sorted(target)), simtime
-        for k, v in snapshot.items():
-            if k in opaque:
-                if target[k] is not v:
+                got = T if e.enforce(d['pname'], target, creds) else F
+            except simnet.SimStall:
+                got = 'HANG'
+            except Exception as ex:      # noqa - outcome recorded
+                got = 'EXC:' + type(ex).__name__
+            for k, n in peer.faults_fired.items():
+                cnt.hit('fault:' + k, n)
+            cnt.hit('requests', len(peer.requests))
+            simtime = peer.clock
+            if dg is not None:
+                dg.add('decision', d['variant'], step_no, got, d.get('debug_logging'),
+                       d.get('lenient_transport'),
+                       [(r['url'], r['timeout'], str(r['verify']), str(r['cert']),
+                         r['body'] if isinstance(r['body'], str)
+                         else repr(r['body'])) for r in peer.requests])
+
+            def viol(sig, **detail):
+                detail.update(sig=sig, prop='C16', got=got,
+                              variant=d['variant'])
+                return detail
+
+            reach = leaves(rules[d['pname']], rules)
+            vals = {u: val[u] for u in reach}
+            if any(v is None for v in vals.values()):
+                cnt.hit('unconstrained_skipped')
+                return None, simtime
+            any_u = U in vals.values()
+            want = kleene(rules[d['pname']], val, rules, roles_now)
+            cnt.hit('kleene_' + want)
+            if got == 'HANG':
+                return viol('hang-no-timeout', want=want), simtime
+            raised = got.startswith('EXC')
+            if not any_u:
+                if raised:
+                    return viol('raised-without-fault:' + got[4:],
+                                want=want), simtime
+                if got != want:
+                    return viol('allowed-without-True' if got == T
+                                else 'denied-despite-True', want=want), simtime
+            else:
+                if want == U and not raised:
+                    return viol('fault-swallowed:' +
+                                ('allow' if got == T else 'deny'),
+                                want='raise'), simtime
+                if not raised and got != want:
+                    return viol('allowed-without-True' if got == T
+                                else 'denied-despite-True', want=want), simtime
+                if raised:
+                    cnt.hit('raised_on_fault')
+            # ---- what the peer received
+            for rq in peer.requests:
+                if rq['url'] not in expected_urls:
+                    return viol('request-url', url=rq['url']), simtime
+                if rq['method'] != 'POST':
+                    return viol('request-method', method=rq['method']), simtime
+                ct = rq['headers'].get('Content-Type', '')
+                body = rq['body']
+                if isinstance(body, bytes):
+                    body = body.decode('utf-8')
+                try:
+                    if d['content_type'] == CT_JSON:
+                        if not ct.startswith(CT_JSON):
+                            return viol('request-encoding', content_type=ct), \
+                                simtime
+                        pl = json.loads(body)
+                        rule, tg, cr = pl['rule'], pl['target'], \
+                            pl['credentials']
+                    else:
+                        if not ct.startswith(CT_FORM):
+                            return viol('request-encoding', content_type=ct), \
+                                simtime
+                        q = urllib.parse.parse_qs(body, strict_parsing=True)
+                        rule = json.loads(q['rule'][0])
+                        tg = json.loads(q['target'][0])
+                        cr = json.loads(q['credentials'][0])
+                except Exception as ex:      # noqa
+                    return viol('request-encoding',
+                                error=type(ex).__name__), simtime
+                if rule != d['pname']:
+                    return viol('payload-rule', sent=rule), simtime
+                if tg != json.loads(json.dumps(plain_target)):
+                    return viol('payload-target', sent=tg), simtime
+                if cr != json.loads(json.dumps(creds_snapshot)):
+                    return viol('payload-credentials', sent=cr), simtime
+                cnt.hit('payloads_checked')
+            # ---- caller's target untouched
+            if set(target) != set(snapshot):
+                return viol('target-mutated', keys=sorted(target)), simtime
+            for k, v in snapshot.items():
+                if k in opaque:
+                    if target[k] is not v:
+                        return viol('target-mutated', key=k), simtime
+                elif target[k] != v:
                     return viol('target-mutated', key=k), simtime
-            elif target[k] != v:
-                return viol('target-mutated', key=k), simtime
-        return None, simtime
+            return None, simtime
+
+        if not d.get('ctx_steps'):
+            creds = copy.deepcopy(d['creds'])
+            return one_call(creds, copy.deepcopy(creds),
+                            set(creds['roles']), 0)
+        # one RequestContext object, re-scoped between several calls
+        from oslo_context import context as _ctx
+        ctx = _ctx.RequestContext(user_id='u1', overwrite=False)
+        cnt.hit('knob:context_object_reused')
+        total = 0.0
+        for step_no, step in enumerate(d['ctx_steps']):
+            del peer.requests[:]
+            peer.faults_fired.clear()
+            peer.clock = 0.0
+            for k_, v_ in step.items():
+                setattr(ctx, k_, v_)
+            # what the library is documented to derive from a context
+            snap = dict(ctx.to_policy_values())
+            if snap.get('system_scope'):
+                snap['system'] = snap['system_scope']
+            v, st = one_call(ctx, snap, set(ctx.roles or []), step_no)
+            total += st
+            if v is not None:
+                v['ctx_step'] = step_no
+                return v, total
+        return None, total
     finally:
         logging.disable(saved_log[0])
         lg.setLevel(saved_log[1])
